@@ -113,6 +113,7 @@ func init() {
 			{Pkg: "amf0", Func: "HarnessC06_LibToRef", Labels: []string{"lib-to-ref"}, Bound: "trees as C05_Tree; library bytes decoded by the reference decoder"},
 			{Pkg: "amf0", Func: "HarnessC06_RefToLib", Labels: []string{"ref-to-lib"}, Bound: "trees as C05_Tree (contents below a strict array concrete); reference bytes (true encoded as any non-zero symbolic byte) decoded by the library"},
 			{Pkg: "amf0", Func: "HarnessC06_LongStrings", Labels: []string{"longstrings"}, Bound: "strings and property names of 255/256/257/65535 bytes (3 symbolic positions), both directions"},
+			{Pkg: "amf0", Func: "HarnessC06_RefDupKeys", Labels: []string{"ref-dupkeys"}, Bound: "reference-encoded object/ECMA array with 2-3 properties whose keys are 0-1 symbolic bytes (repeats are solver choices), nested in an object followed by another property"},
 			{Pkg: "amf0", Func: "HarnessC06_Markers", Labels: []string{"marker-eof", "marker-supported", "marker-unsupported"}, Bound: "all 256 marker bytes (symbolic) followed by 0-2 symbolic bytes"},
 		},
 	})
@@ -194,8 +195,7 @@ func init() {
 		}, rtmpAssume...),
 		Harnesses: []harnessSpec{
 			{Pkg: "rtmp", Func: "HarnessC04_Concurrent", Race: true, Labels: []string{"concurrent"},
-				Bound:  "1 request (connect, or createStream with symbolic id > 1.5), 2 threads, all schedules; free and slow-write transport",
-				BoundT: "1-2 requests (connect and/or createStream with symbolic distinct ids), 2 threads, all schedules"},
+				Bound: "1-2 requests (connect and/or createStream with symbolic distinct ids), optionally pipelined with the answers in reverse order, optionally preceded by a stray response; 2 threads, all schedules; free and slow-write transport"},
 		},
 	})
 	reg(&propSpec{
@@ -221,6 +221,7 @@ func init() {
 		}, commonAssumptions...),
 		Harnesses: []harnessSpec{
 			{Pkg: "amf0", Func: "HarnessC07_Amf0", Stall: true, Labels: []string{"c07-amf0", "c07-amf0-accepted"}, Bound: "every byte string of 0..10 bytes (thorough 0..13) through Discovery+UnmarshalBinary and through each concrete type's decoder"},
+			{Pkg: "amf0", Func: "HarnessC07_Amf0Truncated", Stall: true, Labels: []string{"c07-amf0-trunc", "c07-amf0-trunc-accepted"}, Bound: "encodings of a container (object/ECMA/strict) nested in a container, with 4 kinds of leaf and an optional sibling, cut at every offset"},
 			{Pkg: "amf0", Func: "HarnessC07_Amf0Enums", Labels: []string{"c07-amf0-enums"}, Bound: "marker.String() over all 256 values"},
 			{Pkg: "rtmp", Func: "HarnessC07_Chunks", Stall: true, Labels: []string{"c07-chunks"}, Bound: "ReadMessage until error over every byte string of 0..12 bytes (thorough 0..16), input chunk size default 128 or symbolic 1..4"},
 			{Pkg: "rtmp", Func: "HarnessC07_ChunkStep", Stall: true, Labels: []string{"c07-chunkstep", "c07-chunkstep-message"}, Bound: "one chunk (header type forked, 0..18 arbitrary bytes, chunk size symbolic 1..4) from an arbitrary valid chunk-stream state: fresh / idle with symbolic inherited fields / message of 2..6 bytes partially received"},
@@ -293,6 +294,7 @@ func init() {
 		Harnesses: []harnessSpec{
 			{Pkg: "logger", Func: "HarnessC18_Unique", Race: true, Labels: []string{"unique"}, Bound: "2 goroutines (thorough 2-3), each creating 1-2 contexts; all schedules; race detection"},
 			{Pkg: "logger", Func: "HarnessC18_Alias", Labels: []string{"alias-fresh", "alias-nil", "alias-src"}, Bound: "parent with or without id; source with id / without id / nil"},
+			{Pkg: "logger", Func: "HarnessC18_Rotation", Labels: []string{"rotation"}, Bound: "create, Switch to a closable / plain writer (optionally Close), create, alias, create: all ids pairwise distinct"},
 			{Pkg: "logger", Func: "HarnessC18_Prefix", Labels: []string{"prefix"}, Bound: "context kinds {nil, Cid() object, context.Context with id, context.Context without id} x {Println-style, Printf-style}; ids from {0,7,1000,-3}"},
 		},
 	})
